@@ -6,6 +6,20 @@ import PQ.Lemmas.WF
 Every statement has the form "if the function returns `.ok`, the ghost counter grew by at most …".  No
 well-formedness hypothesis is needed: a faulting access makes the hypothesis false, and only the shape of the
 definitions and index arithmetic matter.
+
+The one exception: operations that start a sift-up at the *recorded* position `qp[slot]` of an existing item
+(`push` of a present item, `change_priority{,_by}`, `push_increase/decrease`) cost `level pos + …`, and on an
+arbitrary store `pos` is arbitrary.  Their `…_cost_gen` forms are hypothesis-free with an explicit bound `B` on the
+levels of recorded positions; the `…_cost` forms assume `Store.QpLt` (recorded positions are `< size`, one clause
+of `WF`, see `Store.WF.qpLt`), which is shown to be preserved by `push` so that the bound chains through `extend`.
+
+Constants proved (n = size, L = log2 n):
+* max-heap: `pickLargest ≤ 2`, `heapify i ≤ 2·height n i ≤ 2L`, `bubbleUp pos ≤ level pos`, `upHeapify i ≤ level i + 2L`
+  (`≤ 3L` for `i < n`), `push ≤ 3·log2(size after)`, `pop/popIf ≤ 2·log2(size after)`, `remove ≤ 3·log2(size after)`,
+  `heapBuild ≤ 2n`.
+* min-max heap: `candidates ≤ 6`, one trickle-down round `≤ 7` and two levels down, `heapify i ≤ 7·⌈height n i / 2⌉`,
+  `bubbleUp pos ≤ level pos / 2 + 1`, `upHeapify i ≤ level i / 2 + 1 + 14·⌈L/2⌉'` (`≤ 8L + 8` for `i < n`, where
+  `⌈L/2⌉' = (L+1)/2`), `findMax ≤ 1`, `popMin ≤ 7·((L'+1)/2)`, `popMax ≤ 7·((L'+1)/2) + 1`, `heapBuild ≤ 7n`.
 -/
 set_option linter.unusedSimpArgs false
 set_option linter.unusedSectionVars false
@@ -369,6 +383,15 @@ def Store.QpLt {P : Type} (s : Store P) : Prop := ∀ (i p : Nat), s.qp[i]? = so
 
 theorem Store.WF.qpLt {P : Type} {s : Store P} (h : s.WF) : s.QpLt := fun _ _ hi => Store.TWF.qp_lt h hi
 
+/-- executable form of `QpLt` (for concrete examples) -/
+theorem Store.qpLt_of_all {P : Type} {s : Store P} (h : s.qp.all (fun p => p < s.size) = true) : s.QpLt := by
+  intro i p hi
+  rw [Array.all_eq_true] at h
+  have hlt := lt_size_of_getElem? hi
+  have := h i hlt
+  have e : s.qp[i] = p := (Array.getElem?_eq_some_iff.1 hi).2
+  simpa [e] using this
+
 namespace MaxQ
 open Store
 variable {P : Type} [LT P] [DecidableLT P]
@@ -560,10 +583,6 @@ theorem peekMutWrite_cost {s s' : Store P} {w : Item → Item} {r : Option (Item
     obtain ⟨i, _, h⟩ := h
     split at h <;> (rw [pure_eq_ok] at h; cases h; exact ⟨rfl, rfl⟩)
 
-end MaxQ
-namespace MaxQ
-open Store
-variable {P : Type} [LT P] [DecidableLT P]
 
 /-! ### Floyd's construction and the bulk operations of `PriorityQueue` -/
 
@@ -835,7 +854,7 @@ namespace DQ
 open Store
 variable {P : Type} [LT P] [DecidableLT P]
 
-theorem candidates_go_spec (s : Store P) (l : List Nat) : ∀ {cs : List (Nat × P)}, candidates.go s l = .ok cs →
+theorem candidates_go_cost_spec (s : Store P) (l : List Nat) : ∀ {cs : List (Nat × P)}, candidates.go s l = .ok cs →
     cs.length ≤ l.length ∧ ∀ x ∈ cs, x.1 ∈ l := by
   induction l with
   | nil => intro cs h; simp only [candidates.go, pure_eq_ok] at h; subst h; simp
@@ -854,11 +873,11 @@ theorem candidates_go_spec (s : Store P) (l : List Nat) : ∀ {cs : List (Nat ×
       · exact List.mem_cons_of_mem _ (b x hx)
 
 /-- at most six candidates (two children, four grandchildren), all of them among these six positions -/
-theorem candidates_spec {s : Store P} {i : Nat} {cs : List (Nat × P)} (h : candidates s i = .ok cs) :
+theorem candidates_cost_spec {s : Store P} {i : Nat} {cs : List (Nat × P)} (h : candidates s i = .ok cs) :
     cs.length ≤ 6 ∧ ∀ x ∈ cs, x.1 = left i ∨ x.1 = right i ∨ x.1 = left (left i) ∨ x.1 = right (left i) ∨
       x.1 = left (right i) ∨ x.1 = right (right i) := by
   unfold candidates at h
-  obtain ⟨a, b⟩ := candidates_go_spec s _ h
+  obtain ⟨a, b⟩ := candidates_go_cost_spec s _ h
   refine ⟨a, fun x hx => ?_⟩
   have := b x hx
   simpa using this
@@ -916,10 +935,6 @@ theorem trickle_arith {n i c : Nat} (hl : left i < n) (hp : 0 < parent c) (hpp :
   · have := height_eq_zero_of_le (n := n) (i := c) (by omega)
     omega
 
-end DQ
-namespace DQ
-open Store
-variable {P : Type} [LT P] [DecidableLT P]
 
 theorem parentC_ok {i site p : Nat} (h : parentC i site = .ok p) : i ≠ 0 ∧ p = parent i := by
   unfold parentC at h
@@ -948,7 +963,7 @@ theorem heapifyMinLoop_cost (fuel : Nat) : ∀ {s s' : Store P} {i : Nat}, heapi
       have hh := height_of_left_lt hleft
       rw [bind_eq_ok] at h
       obtain ⟨cs, hcs, h⟩ := h
-      obtain ⟨hlen, hmem⟩ := candidates_spec hcs
+      obtain ⟨hlen, hmem⟩ := candidates_cost_spec hcs
       rw [bind_eq_ok] at h
       obtain ⟨c, hc, h⟩ := h
       have hcm := hmem c (minByKey_mem (unwrapO_eq_ok_iff.1 hc))
@@ -1016,7 +1031,7 @@ theorem heapifyMaxLoop_cost (fuel : Nat) : ∀ {s s' : Store P} {i : Nat}, heapi
       have hh := height_of_left_lt hleft
       rw [bind_eq_ok] at h
       obtain ⟨cs, hcs, h⟩ := h
-      obtain ⟨hlen, hmem⟩ := candidates_spec hcs
+      obtain ⟨hlen, hmem⟩ := candidates_cost_spec hcs
       rw [bind_eq_ok] at h
       obtain ⟨c, hc, h⟩ := h
       have hcm := hmem c (maxByKey_mem (unwrapO_eq_ok_iff.1 hc))
@@ -1258,5 +1273,689 @@ theorem findMax_cost {s s' : Store P} {r : Option Nat} (h : findMax s = .ok (s',
     refine ⟨rfl, Nat.le_refl _, rfl, rfl, rfl, ?_, (by intro e; cases e)⟩
     intro i e; cases e; split <;> omega
 
+
+/-! ### public operations of `DoublePriorityQueue` -/
+
+theorem findMin_some {s : Store P} {i : Nat} (h : findMin s = some i) : i = 0 := by
+  unfold findMin at h; split at h <;> cases h; rfl
+
+/-- `peek_min` is a pure read (no store in its result).  `peek_max`: at most one comparison. -/
+theorem peekMax_cost {s s' : Store P} {r : Option (Item × P)} (h : peekMax s = .ok (s', r)) :
+    s'.size = s.size ∧ s'.ticks ≤ s.ticks + 1 := by
+  unfold peekMax at h
+  rw [bind_eq_ok] at h
+  obtain ⟨⟨s1, r1⟩, hf, h⟩ := h
+  obtain ⟨a, b, _⟩ := findMax_cost hf
+  dsimp only at h
+  split at h
+  · rw [pure_eq_ok] at h; cases h; exact ⟨a, b⟩
+  · simp only [bind_eq_ok, pure_eq_ok] at h
+    obtain ⟨e, _, h⟩ := h
+    cases h; exact ⟨a, b⟩
+
+theorem peekMinMutWrite_cost {s s' : Store P} {w : Item → Item} {r : Option (Item × P)}
+    (h : peekMinMutWrite s w = .ok (s', r)) : s'.ticks = s.ticks ∧ s'.size = s.size := by
+  unfold peekMinMutWrite at h
+  split at h
+  · rw [pure_eq_ok] at h; cases h; exact ⟨rfl, rfl⟩
+  · rw [bind_eq_ok] at h
+    obtain ⟨i, _, h⟩ := h
+    split at h <;> (rw [pure_eq_ok] at h; cases h; exact ⟨rfl, rfl⟩)
+
+theorem peekMaxMutWrite_cost {s s' : Store P} {w : Item → Item} {r : Option (Item × P)}
+    (h : peekMaxMutWrite s w = .ok (s', r)) : s'.ticks ≤ s.ticks + 1 ∧ s'.size = s.size := by
+  unfold peekMaxMutWrite at h
+  rw [bind_eq_ok] at h
+  obtain ⟨⟨s1, r1⟩, hf, h⟩ := h
+  obtain ⟨a, b, _⟩ := findMax_cost hf
+  dsimp only at h
+  split at h
+  · rw [pure_eq_ok] at h; cases h; exact ⟨b, a⟩
+  · rw [bind_eq_ok] at h
+    obtain ⟨i, _, h⟩ := h
+    split at h <;> (rw [pure_eq_ok] at h; cases h; exact ⟨b, a⟩)
+
+theorem popMin_cost {s s' : Store P} {r : Option (Item × P)} (h : popMin s = .ok (s', r)) :
+    s'.size = s.size - 1 ∧ s'.ticks ≤ s.ticks + 7 * ((Nat.log2 s'.size + 1) / 2) := by
+  unfold popMin at h
+  split at h
+  · rename_i hf
+    rw [pure_eq_ok] at h; cases h
+    unfold findMin at hf
+    split at hf
+    · rename_i h0; exact ⟨by omega, by omega⟩
+    · cases hf
+  · simp only [bind_eq_ok, pure_eq_ok, Prod.exists] at h
+    obtain ⟨s1, r1, hs, s2, hh, h⟩ := h
+    cases h
+    obtain ⟨a, b⟩ := swapRemove_cost hs
+    obtain ⟨c, d⟩ := heapify_cost_log hh
+    rw [c]; exact ⟨a, by omega⟩
+
+theorem popMinIf_cost {s s' : Store P} {f : Item → P → Bool × Item × P} {r : Option (Item × P)}
+    (h : popMinIf s f = .ok (s', r)) :
+    s'.size ≤ s.size ∧ s'.ticks ≤ s.ticks + 7 * ((Nat.log2 s'.size + 1) / 2) := by
+  unfold popMinIf at h
+  split at h
+  · rw [pure_eq_ok] at h; cases h; exact ⟨Nat.le_refl _, by omega⟩
+  · simp only [bind_eq_ok, pure_eq_ok, Prod.exists] at h
+    obtain ⟨s1, r1, hs, s2, hh, h⟩ := h
+    cases h
+    obtain ⟨a, b⟩ := swapRemoveIf_cost hs
+    obtain ⟨c, d⟩ := heapify_cost_log hh
+    rw [c]; exact ⟨a, by omega⟩
+
+theorem popMax_cost {s s' : Store P} {r : Option (Item × P)} (h : popMax s = .ok (s', r)) :
+    s'.size = s.size - 1 ∧ s'.ticks ≤ s.ticks + 7 * ((Nat.log2 s'.size + 1) / 2) + 1 := by
+  unfold popMax at h
+  rw [bind_eq_ok] at h
+  obtain ⟨⟨s0, r0⟩, hf, h⟩ := h
+  obtain ⟨z0, t0, _, _, _, _, hnone⟩ := findMax_cost hf
+  dsimp only at h
+  split at h
+  · rw [pure_eq_ok] at h; cases h
+    have : s.size = 0 := hnone rfl
+    exact ⟨by omega, by omega⟩
+  · simp only [bind_eq_ok, pure_eq_ok, Prod.exists] at h
+    obtain ⟨s1, r1, hs, s2, hh, h⟩ := h
+    cases h
+    obtain ⟨a, b⟩ := swapRemove_cost hs
+    obtain ⟨c, d⟩ := heapify_cost_log hh
+    rw [c]; exact ⟨by omega, by omega⟩
+
+theorem popMaxIf_cost {s s' : Store P} {f : Item → P → Bool × Item × P} {r : Option (Item × P)}
+    (h : popMaxIf s f = .ok (s', r)) :
+    s'.size ≤ s.size ∧ s'.ticks ≤ s.ticks + 14 * ((Nat.log2 s'.size + 1) / 2) + 2 := by
+  unfold popMaxIf at h
+  rw [bind_eq_ok] at h
+  obtain ⟨⟨s0, r0⟩, hf, h⟩ := h
+  obtain ⟨z0, t0, hm0, hq0, hh0, hi, hnn⟩ := findMax_cost hf
+  dsimp only at h
+  split at h
+  · rw [pure_eq_ok] at h; cases h; exact ⟨by omega, by omega⟩
+  · rename_i i
+    simp only [bind_eq_ok, pure_eq_ok, Prod.exists] at h
+    obtain ⟨s1, r1, hs, s2, hh, h⟩ := h
+    cases h
+    obtain ⟨a, b⟩ := swapRemoveIf_cost hs
+    obtain ⟨c, d⟩ := upHeapify_cost hh
+    have hi2 := hi i rfl
+    have : level i / 2 = 0 := by
+      have : level i ≤ level 2 := level_mono hi2
+      rw [level_two] at this; omega
+    rw [c]; exact ⟨by omega, by omega⟩
+
+/-- `push`, general form -/
+theorem push_cost_gen {s s' : Store P} {it : Item} {p : P} {r : Option P} {B : Nat}
+    (hB : ∀ (i pos : Nat), s.qp[i]? = some pos → level pos ≤ B) (h : push s it p = .ok (s', r)) :
+    (r = none → s'.size = s.size + 1 ∧ s'.ticks ≤ s.ticks + Nat.log2 (s.size + 1) / 2 + 1) ∧
+    (r ≠ none → s'.size = s.size ∧ s'.ticks ≤ s.ticks + B / 2 + 1 + 14 * ((Nat.log2 s.size + 1) / 2)) := by
+  unfold push at h
+  generalize s.map.insertFull it p = t at h
+  obtain ⟨map, idx, old⟩ := t
+  dsimp only at h
+  cases old with
+  | some oldp =>
+    dsimp only at h
+    rw [bind_eq_ok] at h
+    obtain ⟨pos, hpos, h⟩ := h
+    rw [bind_eq_ok] at h
+    obtain ⟨s1, hu, h⟩ := h
+    rw [pure_eq_ok] at h
+    cases h
+    obtain ⟨a, b⟩ := upHeapify_cost hu
+    have := hB idx pos (getU_eq_ok_iff.1 hpos)
+    have : level pos / 2 ≤ B / 2 := Nat.div_le_div_right this
+    refine ⟨fun e => (by cases e), fun _ => ⟨a, ?_⟩⟩
+    simp only at b; omega
+  | none =>
+    dsimp only at h
+    rw [bind_eq_ok] at h
+    obtain ⟨⟨s1, p1⟩, hb, h⟩ := h
+    rw [pure_eq_ok] at h
+    cases h
+    obtain ⟨a, _, c, _⟩ := bubbleUp_cost hb
+    refine ⟨fun _ => ⟨by simp only [a], ?_⟩, fun e => absurd rfl e⟩
+    simp only [level_eq] at c; exact c
+
+/-- `push` on a queue whose recorded positions are in range: at most `8 * log2 (size after) + 8` comparisons -/
+theorem push_cost {s s' : Store P} {it : Item} {p : P} {r : Option P} (hq : s.QpLt) (h : push s it p = .ok (s', r)) :
+    s'.size ≤ s.size + 1 ∧ s.size ≤ s'.size ∧ s'.ticks ≤ s.ticks + 8 * Nat.log2 s'.size + 8 := by
+  obtain ⟨a, b⟩ := push_cost_gen (B := Nat.log2 s.size) (fun i pos hi => level_le_log2 (hq i pos hi)) h
+  cases r with
+  | none => obtain ⟨a1, a2⟩ := a rfl; rw [a1]; exact ⟨Nat.le_refl _, by omega, by omega⟩
+  | some x => obtain ⟨b1, b2⟩ := b (by simp); rw [b1]; exact ⟨by omega, Nat.le_refl _, by omega⟩
+
+theorem changePriority_cost_gen {s s' : Store P} {k : Nat} {p : P} {r : Option P} {B : Nat}
+    (hB : ∀ (i pos : Nat), s.qp[i]? = some pos → level pos ≤ B) (h : changePriority s k p = .ok (s', r)) :
+    s'.size = s.size ∧ s'.ticks ≤ s.ticks + B / 2 + 1 + 14 * ((Nat.log2 s.size + 1) / 2) := by
+  unfold changePriority at h
+  rw [bind_eq_ok] at h
+  obtain ⟨⟨s1, r1⟩, hs, h⟩ := h
+  obtain ⟨a, b, c, d⟩ := Store.changePriority_cost hs
+  dsimp only at h
+  split at h
+  · rename_i old pos
+    rw [bind_eq_ok] at h
+    obtain ⟨s2, hu, h⟩ := h
+    rw [pure_eq_ok] at h; cases h
+    obtain ⟨i, hi⟩ := d old pos rfl
+    have := hB i pos hi
+    have : level pos / 2 ≤ B / 2 := Nat.div_le_div_right this
+    obtain ⟨e, f⟩ := upHeapify_cost hu
+    rw [a] at e f
+    exact ⟨e, by omega⟩
+  · rw [pure_eq_ok] at h; cases h; exact ⟨a, by omega⟩
+
+theorem changePriority_cost {s s' : Store P} {k : Nat} {p : P} {r : Option P} (hq : s.QpLt)
+    (h : changePriority s k p = .ok (s', r)) :
+    s'.size = s.size ∧ s'.ticks ≤ s.ticks + 8 * Nat.log2 s.size + 8 := by
+  obtain ⟨a, b⟩ := changePriority_cost_gen (B := Nat.log2 s.size) (fun i pos hi => level_le_log2 (hq i pos hi)) h
+  exact ⟨a, by omega⟩
+
+theorem changePriorityBy_cost_gen {s s' : Store P} {k : Nat} {g : P → P} {r : Bool} {B : Nat}
+    (hB : ∀ (i pos : Nat), s.qp[i]? = some pos → level pos ≤ B) (h : changePriorityBy s k g = .ok (s', r)) :
+    s'.size = s.size ∧ s'.ticks ≤ s.ticks + B / 2 + 1 + 14 * ((Nat.log2 s.size + 1) / 2) := by
+  unfold changePriorityBy at h
+  rw [bind_eq_ok] at h
+  obtain ⟨⟨s1, r1⟩, hs, h⟩ := h
+  obtain ⟨a, b, c, d⟩ := Store.changePriorityBy_cost hs
+  dsimp only at h
+  split at h
+  · rename_i pos
+    rw [bind_eq_ok] at h
+    obtain ⟨s2, hu, h⟩ := h
+    rw [pure_eq_ok] at h; cases h
+    obtain ⟨i, hi⟩ := d pos rfl
+    have := hB i pos hi
+    have : level pos / 2 ≤ B / 2 := Nat.div_le_div_right this
+    obtain ⟨e, f⟩ := upHeapify_cost hu
+    rw [a] at e f
+    exact ⟨e, by omega⟩
+  · rw [pure_eq_ok] at h; cases h; exact ⟨a, by omega⟩
+
+theorem changePriorityBy_cost {s s' : Store P} {k : Nat} {g : P → P} {r : Bool} (hq : s.QpLt)
+    (h : changePriorityBy s k g = .ok (s', r)) :
+    s'.size = s.size ∧ s'.ticks ≤ s.ticks + 8 * Nat.log2 s.size + 8 := by
+  obtain ⟨a, b⟩ := changePriorityBy_cost_gen (B := Nat.log2 s.size) (fun i pos hi => level_le_log2 (hq i pos hi)) h
+  exact ⟨a, by omega⟩
+
+theorem remove_cost {s s' : Store P} {k : Nat} {r : Option (Item × P)} (h : remove s k = .ok (s', r)) :
+    s'.size ≤ s.size ∧ s'.ticks ≤ s.ticks + 8 * Nat.log2 s'.size + 8 := by
+  unfold remove at h
+  rw [bind_eq_ok] at h
+  obtain ⟨⟨s1, r1⟩, hs, h⟩ := h
+  obtain ⟨a, b⟩ := Store.remove_cost hs
+  dsimp only at h
+  split at h
+  · split at h
+    · rename_i hpos
+      rw [bind_eq_ok] at h
+      obtain ⟨s2, hu, h⟩ := h
+      rw [pure_eq_ok] at h; cases h
+      obtain ⟨e, f⟩ := upHeapify_cost_log hpos hu
+      rw [e]; exact ⟨a, by omega⟩
+    · rw [pure_eq_ok] at h; cases h; exact ⟨a, by omega⟩
+  · rw [pure_eq_ok] at h; cases h; exact ⟨a, by omega⟩
+
+theorem pushIncrease_cost {s s' : Store P} {it : Item} {p : P} {r : Option P} (hq : s.QpLt)
+    (h : pushIncrease s it p = .ok (s', r)) :
+    s'.size ≤ s.size + 1 ∧ s.size ≤ s'.size ∧ s'.ticks ≤ s.ticks + 8 * Nat.log2 s'.size + 9 := by
+  unfold pushIncrease at h
+  split at h
+  · obtain ⟨a, b, c⟩ := push_cost hq h; exact ⟨a, b, by omega⟩
+  · dsimp only at h
+    split at h
+    · have hq' : (s.tick).QpLt := hq
+      obtain ⟨a, b, c⟩ := push_cost hq' h
+      simp only [Store.tick_size, Store.tick_ticks] at a b c
+      exact ⟨a, b, by omega⟩
+    · rw [pure_eq_ok] at h; cases h
+      simp only [Store.tick_size, Store.tick_ticks]
+      exact ⟨by omega, Nat.le_refl _, by omega⟩
+
+theorem pushDecrease_cost {s s' : Store P} {it : Item} {p : P} {r : Option P} (hq : s.QpLt)
+    (h : pushDecrease s it p = .ok (s', r)) :
+    s'.size ≤ s.size + 1 ∧ s.size ≤ s'.size ∧ s'.ticks ≤ s.ticks + 8 * Nat.log2 s'.size + 9 := by
+  unfold pushDecrease at h
+  split at h
+  · obtain ⟨a, b, c⟩ := push_cost hq h; exact ⟨a, b, by omega⟩
+  · dsimp only at h
+    split at h
+    · have hq' : (s.tick).QpLt := hq
+      obtain ⟨a, b, c⟩ := push_cost hq' h
+      simp only [Store.tick_size, Store.tick_ticks] at a b c
+      exact ⟨a, b, by omega⟩
+    · rw [pure_eq_ok] at h; cases h
+      simp only [Store.tick_size, Store.tick_ticks]
+      exact ⟨by omega, Nat.le_refl _, by omega⟩
+
+
+/-! ### construction and bulk operations of `DoublePriorityQueue` -/
+
+theorem heapBuildLoop_cost (k : Nat) : ∀ {s s' : Store P}, heapBuildLoop s k = .ok s' →
+    s'.size = s.size ∧
+    s'.ticks ≤ s.ticks + 7 * ((List.range (k + 1)).map (fun i => (height s.size i + 1) / 2)).sum := by
+  induction k with
+  | zero =>
+    intro s s' h
+    simp only [heapBuildLoop] at h
+    obtain ⟨a, b⟩ := heapify_cost h
+    refine ⟨a, ?_⟩
+    simpa [List.range_succ] using b
+  | succ k ih =>
+    intro s s' h
+    simp only [heapBuildLoop] at h
+    rw [bind_eq_ok] at h
+    obtain ⟨s1, hh, h⟩ := h
+    obtain ⟨a, b⟩ := heapify_cost hh
+    obtain ⟨c, d⟩ := ih h
+    rw [a] at c d
+    refine ⟨c, ?_⟩
+    rw [sum_range_succ _ (k + 1)]
+    omega
+
+/-- **`heap_build` of the min-max heap is linear**: at most `7 * size` comparisons
+(`Σ ⌈height/2⌉ ≤ Σ height ≤ size`) -/
+theorem heapBuild_cost {s s' : Store P} (h : heapBuild s = .ok s') :
+    s'.size = s.size ∧ s'.ticks ≤ s.ticks + 7 * s.size := by
+  unfold heapBuild at h
+  split at h
+  · rw [pure_eq_ok] at h; subst h; exact ⟨rfl, by omega⟩
+  · rename_i hn
+    rw [bind_eq_ok] at h
+    obtain ⟨top, ht, h⟩ := h
+    obtain ⟨_, rfl⟩ := parentC_ok ht
+    obtain ⟨a, b⟩ := heapBuildLoop_cost _ h
+    refine ⟨a, ?_⟩
+    have h1 : parent s.size + 1 ≤ s.size := by have := parent_lt (Nat.pos_of_ne_zero hn); omega
+    have h2 := sum_range_mono_len (fun i => (height s.size i + 1) / 2) h1
+    have h3 : ((List.range s.size).map (fun i => (height s.size i + 1) / 2)).sum
+        ≤ ((List.range s.size).map (height s.size)).sum :=
+      sum_range_le_of_le (fun i _ => by omega)
+    have h4 := sum_height_le s.size
+    omega
+
+theorem retainMut_cost {s s' : Store P} {f : Item → P → Bool × Item × P} (h : retainMut s f = .ok s') :
+    s'.ticks ≤ s.ticks + 7 * s'.size := by
+  obtain ⟨a, b⟩ := heapBuild_cost h
+  rw [Store.retainMut_cost] at b; rw [a]; exact b
+
+theorem fromVec_cost {v : Array (Item × P)} {s' : Store P} (h : fromVec v = .ok s') :
+    s'.size ≤ v.size ∧ s'.ticks ≤ 7 * s'.size := by
+  obtain ⟨a, b⟩ := heapBuild_cost h
+  obtain ⟨c, d⟩ := Store.fromVec_cost v
+  rw [c] at b; rw [a]; exact ⟨d, by omega⟩
+
+theorem fromIter_cost {v : Array (Item × P)} {s' : Store P} (h : fromIter v = .ok s') :
+    s'.size ≤ v.size ∧ s'.ticks ≤ 7 * s'.size := by
+  obtain ⟨a, b⟩ := heapBuild_cost h
+  obtain ⟨c, d⟩ := Store.fromIter_cost v
+  rw [c] at b; rw [a]; exact ⟨d, by omega⟩
+
+theorem deserialize_cost {v : Array (Item × P)} {s' : Store P} (h : deserialize v = .ok s') :
+    s'.size ≤ v.size ∧ s'.ticks ≤ 7 * s'.size := by
+  obtain ⟨a, b⟩ := heapBuild_cost h
+  obtain ⟨c, d⟩ := Store.visitSeq_cost v
+  rw [c] at b; rw [a]; exact ⟨d, by omega⟩
+
+theorem ofStore_cost {s s' : Store P} (h : ofStore s = .ok s') :
+    s'.size = s.size ∧ s'.ticks ≤ s.ticks + 7 * s.size := heapBuild_cost h
+
+theorem append_cost {s o s' o' : Store P} (h : append s o = .ok (s', o')) :
+    s'.ticks ≤ max s.ticks o.ticks + 7 * s'.size := by
+  unfold append at h
+  rw [bind_eq_ok] at h
+  obtain ⟨s1, hb, h⟩ := h
+  rw [pure_eq_ok] at h
+  obtain ⟨a, b⟩ := heapBuild_cost hb
+  have := (Store.append_cost s o).2
+  cases h
+  rw [a]; omega
+
+theorem extend_rebuild_cost {s s' : Store P} {xs : Array (Item × P)} (h : heapBuild (s.extend xs) = .ok s') :
+    s'.size ≤ s.size + xs.size ∧ s'.ticks ≤ s.ticks + 7 * s'.size := by
+  obtain ⟨a, b⟩ := heapBuild_cost h
+  obtain ⟨c, d⟩ := Store.extend_cost s xs
+  rw [c] at b; rw [a]; exact ⟨d, b⟩
+
+/-! ### recorded positions stay in range -/
+
+theorem heapifyMinLoop_qpBd (fuel : Nat) : ∀ {s s' : Store P} {N i : Nat}, s.QpBd N →
+    heapifyMinLoop fuel s i = .ok s' → s'.QpBd N := by
+  induction fuel with
+  | zero => intro s s' N i _ h; simp [heapifyMinLoop] at h
+  | succ fuel ih =>
+    intro s s' N i hq h
+    simp only [heapifyMinLoop] at h
+    rw [bind_eq_ok] at h
+    obtain ⟨last, hlast, h⟩ := h
+    rw [bind_eq_ok] at h
+    obtain ⟨bound, hbound, h⟩ := h
+    split at h
+    · rw [bind_eq_ok] at h
+      obtain ⟨cs, hcs, h⟩ := h
+      rw [bind_eq_ok] at h
+      obtain ⟨c, hc, h⟩ := h
+      rw [bind_eq_ok] at h
+      obtain ⟨pc, _, h⟩ := h
+      rw [bind_eq_ok] at h
+      obtain ⟨pm, _, h⟩ := h
+      split at h
+      · rw [bind_eq_ok] at h
+        obtain ⟨s1, hsw, h⟩ := h
+        have hq1 : s1.QpBd N := Store.swap_qpBd (s := (s.tick (cs.length - 1)).tick) hq hsw
+        split at h
+        · rw [bind_eq_ok] at h
+          obtain ⟨p, _, h⟩ := h
+          rw [bind_eq_ok] at h
+          obtain ⟨pc', _, h⟩ := h
+          rw [bind_eq_ok] at h
+          obtain ⟨pp, _, h⟩ := h
+          split at h
+          · rw [bind_eq_ok] at h
+            obtain ⟨s2, hs2, h⟩ := h
+            exact ih (Store.swap_qpBd (s := s1.tick) hq1 hs2) h
+          · rw [bind_eq_ok] at h
+            obtain ⟨s2, hs2, h⟩ := h
+            rw [pure_eq_ok] at hs2; subst hs2
+            exact ih (s := s1.tick) hq1 h
+        · rw [pure_eq_ok] at h; subst h; exact hq1
+      · rw [pure_eq_ok] at h; subst h; exact hq
+    · rw [pure_eq_ok] at h; subst h; exact hq
+
+theorem heapifyMaxLoop_qpBd (fuel : Nat) : ∀ {s s' : Store P} {N i : Nat}, s.QpBd N →
+    heapifyMaxLoop fuel s i = .ok s' → s'.QpBd N := by
+  induction fuel with
+  | zero => intro s s' N i _ h; simp [heapifyMaxLoop] at h
+  | succ fuel ih =>
+    intro s s' N i hq h
+    simp only [heapifyMaxLoop] at h
+    rw [bind_eq_ok] at h
+    obtain ⟨last, hlast, h⟩ := h
+    rw [bind_eq_ok] at h
+    obtain ⟨bound, hbound, h⟩ := h
+    split at h
+    · rw [bind_eq_ok] at h
+      obtain ⟨cs, hcs, h⟩ := h
+      rw [bind_eq_ok] at h
+      obtain ⟨c, hc, h⟩ := h
+      rw [bind_eq_ok] at h
+      obtain ⟨pc, _, h⟩ := h
+      rw [bind_eq_ok] at h
+      obtain ⟨pm, _, h⟩ := h
+      split at h
+      · rw [bind_eq_ok] at h
+        obtain ⟨s1, hsw, h⟩ := h
+        have hq1 : s1.QpBd N := Store.swap_qpBd (s := (s.tick (cs.length - 1)).tick) hq hsw
+        split at h
+        · rw [bind_eq_ok] at h
+          obtain ⟨p, _, h⟩ := h
+          rw [bind_eq_ok] at h
+          obtain ⟨pc', _, h⟩ := h
+          rw [bind_eq_ok] at h
+          obtain ⟨pp, _, h⟩ := h
+          split at h
+          · rw [bind_eq_ok] at h
+            obtain ⟨s2, hs2, h⟩ := h
+            exact ih (Store.swap_qpBd (s := s1.tick) hq1 hs2) h
+          · rw [bind_eq_ok] at h
+            obtain ⟨s2, hs2, h⟩ := h
+            rw [pure_eq_ok] at hs2; subst hs2
+            exact ih (s := s1.tick) hq1 h
+        · rw [pure_eq_ok] at h; subst h; exact hq1
+      · rw [pure_eq_ok] at h; subst h; exact hq
+    · rw [pure_eq_ok] at h; subst h; exact hq
+
+theorem heapify_qpBd {s s' : Store P} {N i : Nat} (hq : s.QpBd N) (h : heapify s i = .ok s') : s'.QpBd N := by
+  unfold heapify at h
+  split at h
+  · rw [pure_eq_ok] at h; subst h; exact hq
+  · split at h
+    · exact heapifyMinLoop_qpBd _ hq h
+    · exact heapifyMaxLoop_qpBd _ hq h
+
+theorem bubbleUpMinLoop_qpBd (fuel : Nat) : ∀ {s s' : Store P} {N pos pos' : Nat} {v : P}, s.QpBd N → pos < N →
+    bubbleUpMinLoop fuel s pos v = .ok (s', pos') → s'.QpBd N := by
+  induction fuel with
+  | zero => intro s s' N pos pos' v _ _ h; simp [bubbleUpMinLoop] at h
+  | succ fuel ih =>
+    intro s s' N pos pos' v hq hpos h
+    simp only [bubbleUpMinLoop] at h
+    split at h
+    · rw [bind_eq_ok] at h
+      obtain ⟨pp, _, h⟩ := h
+      split at h
+      · simp only [bind_eq_ok] at h
+        obtain ⟨pi, _, heap, _, qp, hqp, h⟩ := h
+        obtain ⟨_, rfl⟩ := setU_eq_ok_iff.1 hqp
+        have hq' : (s.tick).QpBd N := hq
+        have := parent_le pos
+        have := parent_le (parent pos)
+        exact ih (QpBd.set (heap := heap) hq' hpos) (by omega) h
+      · rw [pure_eq_ok] at h; cases h; exact hq
+    · rw [pure_eq_ok] at h; cases h; exact hq
+
+theorem bubbleUpMaxLoop_qpBd (fuel : Nat) : ∀ {s s' : Store P} {N pos pos' : Nat} {v : P}, s.QpBd N → pos < N →
+    bubbleUpMaxLoop fuel s pos v = .ok (s', pos') → s'.QpBd N := by
+  induction fuel with
+  | zero => intro s s' N pos pos' v _ _ h; simp [bubbleUpMaxLoop] at h
+  | succ fuel ih =>
+    intro s s' N pos pos' v hq hpos h
+    simp only [bubbleUpMaxLoop] at h
+    split at h
+    · rw [bind_eq_ok] at h
+      obtain ⟨pp, _, h⟩ := h
+      split at h
+      · simp only [bind_eq_ok] at h
+        obtain ⟨pi, _, heap, _, qp, hqp, h⟩ := h
+        obtain ⟨_, rfl⟩ := setU_eq_ok_iff.1 hqp
+        have hq' : (s.tick).QpBd N := hq
+        have := parent_le pos
+        have := parent_le (parent pos)
+        exact ih (QpBd.set (heap := heap) hq' hpos) (by omega) h
+      · rw [pure_eq_ok] at h; cases h; exact hq
+    · rw [pure_eq_ok] at h; cases h; exact hq
+
+theorem bubbleUpMin_qpBd {s s' : Store P} {N pos mp pos' : Nat} (hq : s.QpBd N) (hpos : pos < N)
+    (h : bubbleUpMin s pos mp = .ok (s', pos')) : s'.QpBd N := by
+  unfold bubbleUpMin at h
+  rw [bind_eq_ok] at h
+  obtain ⟨e, _, h⟩ := h
+  exact bubbleUpMinLoop_qpBd _ hq hpos h
+
+theorem bubbleUpMax_qpBd {s s' : Store P} {N pos mp pos' : Nat} (hq : s.QpBd N) (hpos : pos < N)
+    (h : bubbleUpMax s pos mp = .ok (s', pos')) : s'.QpBd N := by
+  unfold bubbleUpMax at h
+  rw [bind_eq_ok] at h
+  obtain ⟨e, _, h⟩ := h
+  exact bubbleUpMaxLoop_qpBd _ hq hpos h
+
+theorem bubbleUp_qpBd {s s' : Store P} {N pos mp pos' : Nat} (hq : s.QpBd N) (hposN : pos < N)
+    (h : bubbleUp s pos mp = .ok (s', pos')) : s'.QpBd N := by
+  unfold bubbleUp at h
+  rw [bind_eq_ok] at h
+  obtain ⟨e, _, h⟩ := h
+  dsimp only at h
+  have hq' : (s.tick).QpBd N := hq
+  have hpl := parent_le pos
+  by_cases hpos : pos > 0
+  · rw [if_pos hpos] at h
+    rw [bind_eq_ok] at h
+    obtain ⟨pp, _, h⟩ := h
+    rw [bind_eq_ok] at h
+    obtain ⟨pi, _, h⟩ := h
+    split at h
+    · simp only [bind_eq_ok, pure_eq_ok, Prod.exists] at h
+      obtain ⟨heap, _, qp, hqp, s1, p1, hl, heap', _, qp', hqp', h⟩ := h
+      cases h
+      obtain ⟨_, rfl⟩ := setU_eq_ok_iff.1 hqp
+      obtain ⟨_, rfl⟩ := setU_eq_ok_iff.1 hqp'
+      have hle := (bubbleUpMax_cost hl).2.1
+      exact QpBd.set (heap := heap') (bubbleUpMax_qpBd (QpBd.set (heap := heap) hq' hposN) (by omega) hl) (by omega)
+    · simp only [bind_eq_ok, pure_eq_ok, Prod.exists] at h
+      obtain ⟨s1, p1, hl, heap', _, qp', hqp', h⟩ := h
+      cases h
+      obtain ⟨_, rfl⟩ := setU_eq_ok_iff.1 hqp'
+      have hle := (bubbleUpMin_cost hl).2.1
+      exact QpBd.set (heap := heap') (bubbleUpMin_qpBd hq' hposN hl) (by omega)
+    · simp only [bind_eq_ok, pure_eq_ok, Prod.exists] at h
+      obtain ⟨s1, p1, hl, heap', _, qp', hqp', h⟩ := h
+      cases h
+      obtain ⟨_, rfl⟩ := setU_eq_ok_iff.1 hqp'
+      have hle := (bubbleUpMax_cost hl).2.1
+      exact QpBd.set (heap := heap') (bubbleUpMax_qpBd hq' hposN hl) (by omega)
+    · simp only [bind_eq_ok, pure_eq_ok, Prod.exists] at h
+      obtain ⟨heap, _, qp, hqp, s1, p1, hl, heap', _, qp', hqp', h⟩ := h
+      cases h
+      obtain ⟨_, rfl⟩ := setU_eq_ok_iff.1 hqp
+      obtain ⟨_, rfl⟩ := setU_eq_ok_iff.1 hqp'
+      have hle := (bubbleUpMin_cost hl).2.1
+      exact QpBd.set (heap := heap') (bubbleUpMin_qpBd (QpBd.set (heap := heap) hq' hposN) (by omega) hl) (by omega)
+  · rw [if_neg hpos] at h
+    simp only [bind_eq_ok, pure_eq_ok, Prod.exists] at h
+    obtain ⟨s1, p1, hl, heap', _, qp', hqp', h⟩ := h
+    cases h; cases hl
+    obtain ⟨_, rfl⟩ := setU_eq_ok_iff.1 hqp'
+    exact QpBd.set (heap := heap') hq hposN
+
+theorem upHeapify_qpBd {s s' : Store P} {N i : Nat} (hq : s.QpBd N) (hi : i < N) (h : upHeapify s i = .ok s') :
+    s'.QpBd N := by
+  unfold upHeapify at h
+  split at h
+  · rw [pure_eq_ok] at h; subst h; exact hq
+  · rw [bind_eq_ok] at h
+    obtain ⟨⟨s1, p1⟩, hb, h⟩ := h
+    have hq1 := bubbleUp_qpBd hq hi hb
+    dsimp only at h
+    split at h
+    · simp only [bind_eq_ok] at h
+      obtain ⟨s2, h2, h⟩ := h
+      exact heapify_qpBd (heapify_qpBd hq1 h2) h
+    · simp only [bind_eq_ok, pure_eq_ok] at h
+      obtain ⟨s2, h2, h⟩ := h
+      subst h2
+      exact heapify_qpBd hq1 h
+
+theorem push_qpLt {s s' : Store P} {it : Item} {p : P} {r : Option P} (hq : s.QpLt) (h : push s it p = .ok (s', r)) :
+    s'.QpLt := by
+  have hsz := push_cost_gen (B := Nat.log2 s.size) (fun i pos hi => level_le_log2 (hq i pos hi)) h
+  unfold push at h
+  generalize s.map.insertFull it p = t at h
+  obtain ⟨map, idx, old⟩ := t
+  dsimp only at h
+  cases old with
+  | some oldp =>
+    dsimp only at h
+    rw [bind_eq_ok] at h
+    obtain ⟨pos, hpos, h⟩ := h
+    rw [bind_eq_ok] at h
+    obtain ⟨s1, hu, h⟩ := h
+    rw [pure_eq_ok] at h
+    cases h
+    have hs := (hsz.2 (by simp)).1
+    have hp := hq idx pos (getU_eq_ok_iff.1 hpos)
+    have : s'.QpBd s.size := upHeapify_qpBd (s := { s with map := map }) hq hp hu
+    intro i p hi; rw [hs]; exact this i p hi
+  | none =>
+    dsimp only at h
+    rw [bind_eq_ok] at h
+    obtain ⟨⟨s1, p1⟩, hb, h⟩ := h
+    rw [pure_eq_ok] at h
+    cases h
+    have hs := (hsz.1 rfl).1
+    have h0 : ({ s with map := map, qp := s.qp.push s.size, heap := s.heap.push s.size } : Store P).QpBd (s.size + 1) := by
+      intro i p hi
+      simp only [Array.getElem?_push] at hi
+      split at hi
+      · cases hi; omega
+      · have := hq i p hi; omega
+    have := bubbleUp_qpBd h0 (Nat.lt_succ_self _) hb
+    intro i p hi
+    simp only at hs
+    exact hs ▸ this i p hi
+
+/-- the per-element strategy of `extend`: `k` pushes cost at most `k * (8 * log2 (final size) + 8)` comparisons -/
+theorem pushAll_cost (es : List (Item × P)) : ∀ {s s' : Store P}, s.QpLt → pushAll es s = .ok s' →
+    s'.QpLt ∧ s.size ≤ s'.size ∧ s'.size ≤ s.size + es.length ∧
+    s'.ticks ≤ s.ticks + es.length * (8 * Nat.log2 s'.size + 8) := by
+  induction es with
+  | nil =>
+    intro s s' hq h
+    simp only [pushAll, pure_eq_ok] at h
+    subst h; exact ⟨hq, Nat.le_refl _, Nat.le_refl _, by simp⟩
+  | cons e es ih =>
+    intro s s' hq h
+    simp only [pushAll] at h
+    rw [bind_eq_ok] at h
+    obtain ⟨⟨s1, r1⟩, hp, h⟩ := h
+    obtain ⟨a, b, c⟩ := push_cost hq hp
+    obtain ⟨q', a', b', c'⟩ := ih (push_qpLt hq hp) h
+    refine ⟨q', by omega, by simp only [List.length_cons]; omega, ?_⟩
+    have hm := log2_mono a'
+    rw [List.length_cons, Nat.succ_mul]
+    generalize es.length * (8 * Nat.log2 s'.size + 8) = X at *
+    omega
+
+theorem extend_cost {s s' : Store P} {lo : Nat} {xs : Array (Item × P)} (hq : s.QpLt) (h : extend s lo xs = .ok s') :
+    s'.size ≤ s.size + xs.size ∧
+    s'.ticks ≤ s.ticks + max (7 * s'.size) (xs.size * (8 * Nat.log2 s'.size + 8)) := by
+  unfold extend at h
+  generalize (if lo ≠ 0 then betterToRebuild s.size lo else false) = rb at h
+  dsimp only at h
+  split at h
+  · obtain ⟨a, b⟩ := extend_rebuild_cost h
+    exact ⟨a, by omega⟩
+  · obtain ⟨_, _, a, b⟩ := pushAll_cost _ hq h
+    rw [Array.length_toList] at a b
+    exact ⟨a, by omega⟩
+
 end DQ
+/-! ## Non-vacuity: the hypotheses are satisfiable (concrete runs that return `.ok` and meet the bounds with equality
+or near it) -/
+
+namespace CostExamples
+
+/-- max-heap with priorities 9 | 5 3 at positions 0..2 -/
+def m3 : Store Nat :=
+  { map := #[(⟨1, 0⟩, 5), (⟨2, 0⟩, 3), (⟨3, 0⟩, 9)], heap := #[2, 0, 1], qp := #[1, 2, 0], size := 3 }
+
+/-- the same store with the root lowered to `0`: sift-down from the root costs `2 * height 3 0 = 2` -/
+def m3' : Store Nat := { m3 with map := #[(⟨1, 0⟩, 5), (⟨2, 0⟩, 3), (⟨3, 0⟩, 0)] }
+
+/-- min-max heap with priorities 1 | 9 8 | 3 5 4 at positions 0..5 -/
+def d6 : Store Nat :=
+  { map := #[(⟨1, 0⟩, 1), (⟨2, 0⟩, 9), (⟨3, 0⟩, 8), (⟨4, 0⟩, 3), (⟨5, 0⟩, 5), (⟨6, 0⟩, 4)],
+    heap := #[0, 1, 2, 3, 4, 5], qp := #[0, 1, 2, 3, 4, 5], size := 6 }
+
+/-- root raised to `7`: trickle-down from the root runs one full round (5 + 1 + 1 comparisons) -/
+def d6' : Store Nat :=
+  { d6 with map := #[(⟨1, 0⟩, 7), (⟨2, 0⟩, 9), (⟨3, 0⟩, 8), (⟨4, 0⟩, 3), (⟨5, 0⟩, 5), (⟨6, 0⟩, 4)] }
+
+example : (MaxQ.pickLargest m3' 0).toOption.map (fun r => (r.1.ticks, r.2)) = some (2, 1) := by decide +kernel
+example : (MaxQ.heapifyLoop 3 m3' 0).toOption.map (·.ticks) = some 2 := by decide +kernel
+example : (MaxQ.heapify m3' 0).toOption.map (·.ticks) = some 2 := by decide +kernel
+example : (MaxQ.bubbleUpLoop 3 m3 2 10).toOption.map (fun r => (r.1.ticks, r.2)) = some (1, 0) := by decide +kernel
+example : (MaxQ.bubbleUpLoop 3 m3 2 4).toOption.map (fun r => (r.1.ticks, r.2)) = some (1, 2) := by decide +kernel
+example : (MaxQ.upHeapify { m3 with map := #[(⟨1, 0⟩, 5), (⟨2, 0⟩, 10), (⟨3, 0⟩, 9)] } 2).toOption.map (·.ticks)
+    = some 3 := by decide +kernel
+example : (MaxQ.heapBuildLoop { m3 with heap := #[1, 0, 2], qp := #[1, 0, 2] } 1).toOption.map (·.ticks) = some 2 := by
+  decide +kernel
+example : (MaxQ.pushAll [(⟨4, 0⟩, 7), (⟨5, 0⟩, 1)] m3).toOption.map (·.ticks) = some 3 := by decide +kernel
+example : (DQ.candidates d6 0).toOption.map (·.length) = some 5 := by decide +kernel
+example : (DQ.heapifyMinLoop 6 d6' 0).toOption.map (·.ticks) = some 6 := by decide +kernel
+example : (DQ.heapifyMaxLoop 6 { d6 with map := #[(⟨1, 0⟩, 1), (⟨2, 0⟩, 2), (⟨3, 0⟩, 8), (⟨4, 0⟩, 3), (⟨5, 0⟩, 5), (⟨6, 0⟩, 4)] } 1
+    ).toOption.map (·.ticks) = some 2 := by decide +kernel
+example : (DQ.heapify d6' 0).toOption.map (·.ticks) = some 6 := by decide +kernel
+example : (DQ.bubbleUpMinLoop 6 d6 5 0).toOption.map (fun r => (r.1.ticks, r.2)) = some (1, 0) := by decide +kernel
+example : (DQ.bubbleUpMaxLoop 6 d6 5 0).toOption.map (fun r => (r.1.ticks, r.2)) = some (1, 5) := by decide +kernel
+example : (DQ.bubbleUp d6 5 5).toOption.map (fun r => (r.1.ticks, r.2)) = some (2, 5) := by decide +kernel
+example : (DQ.upHeapify d6' 0).toOption.map (·.ticks) = some 6 := by decide +kernel
+example : (DQ.findMax d6).toOption.map (fun r => (r.1.ticks, r.2)) = some (1, some 1) := by decide +kernel
+example : (DQ.heapBuildLoop { d6 with heap := #[5, 4, 3, 2, 1, 0], qp := #[5, 4, 3, 2, 1, 0] } 3).toOption.map (·.ticks)
+    = some 9 := by decide +kernel
+example : (DQ.pushAll [(⟨7, 0⟩, 7), (⟨8, 0⟩, 0)] d6).toOption.map (·.ticks) = some 4 := by decide +kernel
+example : m3.QpLt ∧ d6.QpLt := ⟨Store.qpLt_of_all (by decide +kernel), Store.qpLt_of_all (by decide +kernel)⟩
+
+end CostExamples
 end PQ
